@@ -14,6 +14,7 @@ type OrderedMap struct {
 }
 
 func (o *OrderedMap) Copy() iface.IPFSLogOrderedEntries {
+	verifBeforeLock(&o.lock, false, "OrderedMap.Copy")
 	o.lock.RLock()
 	defer o.lock.RUnlock()
 
@@ -32,6 +33,7 @@ func (o *OrderedMap) Copy() iface.IPFSLogOrderedEntries {
 }
 
 func (o *OrderedMap) Reverse() iface.IPFSLogOrderedEntries {
+	verifBeforeLock(&o.lock, true, "OrderedMap.Reverse")
 	o.lock.Lock()
 	defer o.lock.Unlock()
 
@@ -85,6 +87,7 @@ func (o *OrderedMap) Merge(other iface.IPFSLogOrderedEntries) iface.IPFSLogOrder
 
 // Get retrieves an Entry using its key.
 func (o *OrderedMap) Get(key string) (iface.IPFSLogEntry, bool) {
+	verifBeforeLock(&o.lock, false, "OrderedMap.Get")
 	o.lock.RLock()
 	defer o.lock.RUnlock()
 
@@ -94,6 +97,7 @@ func (o *OrderedMap) Get(key string) (iface.IPFSLogEntry, bool) {
 
 // UnsafeGet retrieves an Entry using its key, returns nil if not found.
 func (o *OrderedMap) UnsafeGet(key string) iface.IPFSLogEntry {
+	verifBeforeLock(&o.lock, false, "OrderedMap.UnsafeGet")
 	o.lock.RLock()
 	defer o.lock.RUnlock()
 
@@ -104,6 +108,7 @@ func (o *OrderedMap) UnsafeGet(key string) iface.IPFSLogEntry {
 
 // Set defines an Entry in the map for a given key.
 func (o *OrderedMap) Set(key string, value iface.IPFSLogEntry) {
+	verifBeforeLock(&o.lock, true, "OrderedMap.Set")
 	o.lock.Lock()
 	defer o.lock.Unlock()
 
@@ -116,6 +121,7 @@ func (o *OrderedMap) Set(key string, value iface.IPFSLogEntry) {
 
 // Slice returns an ordered slice of the values existing in the map.
 func (o *OrderedMap) Slice() []iface.IPFSLogEntry {
+	verifBeforeLock(&o.lock, false, "OrderedMap.Slice")
 	o.lock.RLock()
 	defer o.lock.RUnlock()
 
@@ -131,6 +137,7 @@ func (o *OrderedMap) Slice() []iface.IPFSLogEntry {
 
 // Keys retrieves the ordered list of keys in the map.
 func (o *OrderedMap) Keys() []string {
+	verifBeforeLock(&o.lock, false, "OrderedMap.Keys")
 	o.lock.RLock()
 	defer o.lock.RUnlock()
 
@@ -139,6 +146,7 @@ func (o *OrderedMap) Keys() []string {
 
 // Len gets the length of the map.
 func (o *OrderedMap) Len() int {
+	verifBeforeLock(&o.lock, false, "OrderedMap.Len")
 	o.lock.RLock()
 	defer o.lock.RUnlock()
 
@@ -147,6 +155,7 @@ func (o *OrderedMap) Len() int {
 
 // At gets an item at the given index in the map, returns nil if not found.
 func (o *OrderedMap) At(index uint) iface.IPFSLogEntry {
+	verifBeforeLock(&o.lock, false, "OrderedMap.At")
 	o.lock.RLock()
 	defer o.lock.RUnlock()
 
